@@ -211,6 +211,102 @@ def mk_bits(api, shape, rnd, *, ncpu=0, neg=False, reps=(0,), pre=False, cpu=1):
     return finish_field_case(c, rnd, (1,))
 
 
+# ---- seam cases (ParSeam) ---------------------------------------------------
+
+SEAM_S = 4                                  # block edge of the ParSeam model
+SEAM_REACH = 11                             # real cells a slab reaches from the seam (model: S - 1)
+
+
+def mk_seam(api, axes, g, ks, rnd, *, ncpu=2, thin=(40, 51), cpu=1, tag="seam"):
+    """A ParSeam scenario on the real 100-cell blocks: a lattice slab (orthant solid / plate, values in
+    {-2,-1,1,2}) that is thin across the axis, positioned relative to the seam at cell ks[axis] (a multiple of
+    100) along every axis of `axes` (one axis: face seam; two / three: edge / corner seam). The model's canvas
+    ranges [mn, mx) are mapped end by end (distance from the seam -3/0/3 model cells -> -11/0/11 real cells; the
+    early field of a "padded" lower block ends exactly on that block's low border)."""
+    sc = g["seam"]
+    d = lambda m: (m - SEAM_S) * SEAM_REACH // (SEAM_S - 1)
+    ranges = [("main", g["main"])]
+    if sc["low"] == "padded":
+        ranges.insert(0, ("early", g["early"]))
+    fields = []
+    for what, (mn, mx) in ranges:
+        lo, hi = [thin[0]] * 3, [thin[1]] * 3
+        c2, mask = [0, 0, 0], 0
+        for a in axes:
+            k = ks[a]
+            if what == "main":
+                rmn, rmx = k + d(mn), k + d(mx)
+            else:
+                rmn, rmx = k - 100 - SEAM_REACH, k - 100
+            lo[a], hi[a] = rmn + 1, rmx - 1
+            c2[a] = 2 * (k + g["t"] - SEAM_S) - 1
+            mask |= 1 << a
+        fields.append({"lo": lo, "hi": hi, "attrs": [1], "c2": c2, "r2": 2 * sc["thick"], "axis": 0, "fkind": "orth",
+                       "api": "", "mask": mask, "sgn": sc["sgn"], "shapes": []})
+    c = {"kind": "field", "id": 0, "api": api, "cpu": cpu, "fields": fields, "cuts2": [sc["cut"]], "march": True,
+         "mattrs": [1], "reps": [0], "gated": False, "prio": [], "ncpu": ncpu, "noseq": False, "bits": False,
+         "marchevery": False, "tag": tag,
+         "labels": {"seam": sc, "axes": list(axes), "lowkind": g["lowkind"], "upkind": g["upkind"], "seamx": g["seamx"],
+                    "uown": g["uown"], "ncross": g["ncross"]}}
+    return finish_field_case(c, rnd, (1,))
+
+
+# ---- closure cases (ParClosure) ------------------------------------------------
+
+def mk_closure(api, g, axis, k, rnd, *, ncpu=0, cpu=1, salt=0, tag="closure"):
+    """A field of the marching package whose sampling closure has shared internal structure (CombineFields of
+    g["parts"] shapes, or MultiSegmentLine with that many segments), spanning g["span"] storage blocks along
+    `axis` around the block border at cell k (1: inside one block; 2: straddling the border; 3: reaching over the
+    next border as well). Real-valued: compared bit by bit."""
+    n, span = g["parts"], g["span"]
+    a0, a1 = {1: (k + 30, k + 62), 2: (k - 9, k + 10), 3: (k - 8, k + 107)}[span]
+    side = [37 + salt % 5, 44 - salt % 3]               # position in the two other axes
+    others = [q for q in range(3) if q != axis]
+    steps = n if g["ckind"] == "msline" else max(1, n - 1)
+
+    def pt(t, j):
+        p = [0, 0, 0]
+        p[axis] = a0 + (a1 - a0) * t // steps
+        for i, q in enumerate(others):
+            p[q] = side[i] + (j % 3) - 1
+        return p
+
+    shapes, lo, hi = [], [10 ** 6] * 3, [-10 ** 6] * 3
+
+    def grow(p, m):
+        for q in range(3):
+            lo[q], hi[q] = min(lo[q], p[q] - m), max(hi[q], p[q] + m)
+
+    if g["ckind"] == "msline":
+        for j in range(n + 1):
+            p = pt(j, j)
+            shapes.append([3] + p)
+            grow(p, 9)
+        r2 = 5
+    else:
+        r2 = 0
+        for j in range(n):
+            p = pt(j, j)
+            kind = (j + salt) % 3
+            if kind == 0:
+                shapes.append([0] + p + [5 + j % 2])
+                grow(p, 8)
+            elif kind == 1:
+                shapes.append([1] + p + [9, 7 + j % 2, 8])
+                grow(p, 8)
+            else:
+                q = pt(min(j + 1, n - 1), j + 1) if j + 1 < n else [p[0] + 3, p[1] + 2, p[2] - 2]
+                shapes.append([2] + p + q + [2])
+                grow(p, 6)
+                grow(q, 6)
+    f = {"lo": lo, "hi": hi, "attrs": [1], "c2": [0, 0, 0], "r2": r2, "axis": 0, "fkind": g["ckind"], "api": "",
+         "mask": 0, "sgn": 1, "shapes": shapes}
+    c = {"kind": "field", "id": 0, "api": api, "cpu": cpu, "fields": [f], "cuts2": [0], "march": True, "mattrs": [1],
+         "reps": [0] if span > 1 else [], "gated": False, "prio": [], "ncpu": ncpu, "noseq": False, "bits": True,
+         "marchevery": False, "tag": tag, "labels": {"closure": g, "axis": axis, "border": k}}
+    return finish_field_case(c, rnd, (1,))
+
+
 # --------------------------------------------------------------------------
 # generators (TLC)
 # --------------------------------------------------------------------------
@@ -257,19 +353,34 @@ def run_generators(ctx, notes):
         "geom": lambda: core.run_tlc(ctx.scratch("gen-geom"), "ParFieldGeom", "ParFieldGeom.cfg", workers=2, timeout=600),
         "geomskip": lambda: core.run_tlc(ctx.scratch("gen-geomskip"), "ParFieldGeom", "ParFieldGeomSkip.cfg", timeout=300),
         "geomcopy": lambda: core.run_tlc(ctx.scratch("gen-geomcopy"), "ParFieldGeom", "ParFieldGeomCopy.cfg", timeout=300),
+        "seam": lambda: core.run_tlc(ctx.scratch("gen-seam"), "ParSeam", "ParSeam.cfg", timeout=300),
+        "seamskip": lambda: core.run_tlc(ctx.scratch("gen-seamskip"), "ParSeam", "ParSeamSkip.cfg", timeout=300),
+        "closure": lambda: core.run_tlc(ctx.scratch("gen-closure"), "ParClosure", "ParClosure.cfg", timeout=300),
+        "closureshared": lambda: core.run_tlc(ctx.scratch("gen-closureshared"), "ParClosure", "ParClosureShared.cfg",
+                                              timeout=300),
+        "closuresharedpure": lambda: core.run_tlc(ctx.scratch("gen-closuresharedpure"), "ParClosure",
+                                                  "ParClosureSharedPure.cfg", timeout=300),
     }
     with ThreadPoolExecutor(max_workers=min(len(jobs), max(2, core.NCPU // 2))) as ex:
         futs = {k: ex.submit(retry_killed, f) for k, f in jobs.items()}
         res = {k: f.result() for k, f in futs.items()}
     # design-level results on the models themselves
-    for k in ("scan", "field", "geom"):
+    for k in ("scan", "field", "geom", "seam", "closure"):
         if res[k].rc != 0:
             raise core.Infra("model %s violates its own property %s (spec bug)" % (k, res[k].violated))
         ctx.add_tlc(res[k])
     if res["scansim"].rc != 0:
         raise core.Infra("ParScan violates %s in simulation (spec bug)" % res["scansim"].violated)
-    for k in ("scanpinned", "fieldpinned", "geomskip", "geomcopy"):
+    for k in ("scanpinned", "fieldpinned", "geomskip", "geomcopy", "seamskip", "closureshared", "closuresharedpure"):
         ctx.add_tlc(res[k])
+    # round 5: the designs "a block job skips a block that is uniform in its own samples" and "the closure keeps
+    # its hit list in a shared buffer" are refuted at design level
+    got = (res["seamskip"].violated, res["closureshared"].violated, res["closuresharedpure"].violated)
+    if got != ("MarchEqual", "NoRace", "Pure"):
+        raise core.Infra("ParSeam / ParClosure: the skip-uniform-block / shared-scratch shapes are expected to be refuted "
+                         "(MarchEqual / NoRace / Pure), got %s" % (got,))
+    notes["model_seam_skip_uniform_refuted"] = got[0]
+    notes["model_closure_shared_scratch_refuted"] = "%s, %s" % got[1:]
     notes["model_scan_states"] = res["scan"].distinct
     notes["model_scan_transitions"] = res["scan"].generated
     notes["model_field_states"] = res["field"].distinct
@@ -292,6 +403,11 @@ def run_generators(ctx, notes):
     notes["bfs_schedules"] = len(scheds)
     notes["sim_schedules"] = len(sims)
     notes["field_job_orders"] = len(orders)
+    seams = sorted(dedupe(res["seam"].values, "seam"), key=lambda g: json.dumps(g["seam"], sort_keys=True))
+    closures = sorted(dedupe(res["closure"].values, "ckind"), key=lambda g: (g["ckind"], g["span"], g["parts"]))
+    notes["seam_scenarios"] = len(seams)
+    notes["closure_classes"] = len(closures)
+    geoms = {"geoms": geoms, "seams": seams, "closures": closures}
     return scheds, sims, orders, geoms
 
 
@@ -391,7 +507,9 @@ def build_cases(ctx, scheds, sims, orders, geoms):
                          cpu=cpu, neg=neg, march=True, cuts2=cuts2, mattrs=attrs[:1],
                          reps=(0, 2) if quick else (0, 1, 3), pre=(j % 2 == 1), tag="march")
             fcases.append(c)
-    fcases += geometry_cases(ctx, geoms, rnd)
+    fcases += geometry_cases(ctx, geoms["geoms"], rnd)
+    fcases += seam_cases(ctx, geoms["seams"], rnd)
+    fcases += closure_cases(ctx, geoms["closures"], rnd)
     cases += fcases
     for i, c in enumerate(cases):
         c["id"] = i
@@ -402,7 +520,80 @@ def build_cases(ctx, scheds, sims, orders, geoms):
                 f.setdefault("axis", 0)
                 f.setdefault("fkind", "")
                 f.setdefault("api", "")
+                f.setdefault("mask", 0)
+                f.setdefault("sgn", 1)
+                f.setdefault("shapes", [])
     return cases
+
+
+def seam_class(g):
+    return (g["seam"]["pos"], g["lowkind"], g["upkind"], g["seamx"], g["uown"])
+
+
+def seam_cases(ctx, seams, rnd):
+    """(11) round 5: iso-surfaces in every position relative to a block seam (ParSeam): lower block / exactly in
+    the seam cell layer / upper block, x what the blocks hold (uniform, all zero, absent, crossing), per axis, plus
+    edge / corner seams. Every run contains, for every axis, a scenario in which a block that is uniform in its
+    own samples owns a crossing seam cell (the class the model refutes the skip-uniform design with)."""
+    quick, seed = ctx.tier == "quick", ctx.seed
+    ncpus = (2, 3, 5, 0)
+    borders = (100, 0, -100, 200)
+    out = []
+    owned = [g for g in seams if g["uown"] and g["seam"]["pos"] == "seam" and g["seamx"]]
+    classes = {}
+    for g in seams:
+        classes.setdefault(seam_class(g), []).append(g)
+    keys = sorted(classes)
+    plan = []                                                       # (scenario, axes)
+    for axis in range(3):
+        for r in range(1 if quick else len(owned)):
+            plan.append((owned[(seed * 5 + axis * 7 + r) % len(owned)], (axis,)))
+    if quick:
+        for j in range(3):
+            gs = classes[keys[(seed * 7 + j * 11) % len(keys)]]
+            plan.append((gs[(seed + j) % len(gs)], ((j + seed) % 3,)))
+    else:
+        for j, key in enumerate(keys):
+            for r in range(2):
+                plan.append((classes[key][(seed + r * 5) % len(classes[key])], ((j + r + seed) % 3,)))
+    # edge / corner seams: the same scenario along two / three axes at once (orthant solids); no early field
+    multi = [g for g in owned if g["seam"]["low"] != "padded"]
+    pairs = ((0, 1), (1, 2), (0, 2))
+    plan.append((multi[(seed * 3) % len(multi)], pairs[seed % 3]))
+    if not quick:
+        plan += [(multi[(seed * 3 + 1 + j) % len(multi)], p) for j, p in enumerate(pairs)]
+        plan.append((multi[(seed * 3 + 5) % len(multi)], (0, 1, 2)))
+    for j, (g, axes) in enumerate(plan):
+        ks = [borders[(j + seed + a) % len(borders)] for a in range(3)]
+        thin = THINS[(j + seed) % len(THINS)]
+        out.append(mk_seam(PAR_APIS[(j + seed) % 2], axes, g, ks, rnd, ncpu=ncpus[(j + seed) % 4], thin=thin,
+                           cpu=(1, 1, 2)[(j + seed) % 3], tag="seam"))
+    return out
+
+
+def closure_cases(ctx, closures, rnd):
+    """(12) round 5: fields whose sampling closure has shared internal structure (ParClosure): CombineFields of 2..k
+    shapes, MultiSegmentLine, spanning one, two and more storage blocks, through EVERY parallel entry point."""
+    quick, seed = ctx.tier == "quick", ctx.seed
+    borders = (0, 100, -100)
+    out = []
+    by = {}
+    for g in closures:
+        by.setdefault((g["ckind"], g["span"]), []).append(g)
+    plan = []
+    if quick:
+        for j, key in enumerate((("union", 2), ("msline", 2 + seed % 2), ("union", 3), ("msline", 3 - seed % 2),
+                                 (("union", "msline")[seed % 2], 1))):
+            plan.append(by[key][(seed + j) % len(by[key])])
+    else:
+        plan = list(closures)
+    for j, g in enumerate(plan):
+        for ai, api in enumerate(PAR_APIS):
+            if quick and g["span"] == 1 and ai != seed % 2:
+                continue
+            out.append(mk_closure(api, g, (j + seed) % 3, borders[(j + seed + ai) % 3], rnd, ncpu=(0, 3, 0, 2)[(j + ai) % 4],
+                                  cpu=(1, 2)[(j + seed) % 2], salt=j + seed))
+    return out
 
 
 PAR_APIS = ("AddFieldParallel", "AddFieldParallel2")
@@ -512,7 +703,9 @@ def race_subset(ctx, cases):
             key = (c["api"], c["march"], c["tag"])
             lim = {"march": 1 if quick else 3, "model-order": 10 if quick else 80, "seeded-order": 6 if quick else 40,
                    "geom": 2 if quick else 8, "geom-pair": 2 if quick else 8, "fullblock": 0 if quick else 1,
-                   "bits": 0}[c["tag"]]
+                   "bits": 0, "seam": 0 if quick else 2, "closure": 2 if quick else 12}[c["tag"]]
+            if c["tag"] == "closure" and c["labels"]["closure"]["span"] == 1:
+                continue                            # one job: nothing runs concurrently
             nb = c["shape"][0] * c["shape"][1] * c["shape"][2]
             if c["tag"] == "march" and nb > 2:
                 continue
@@ -969,6 +1162,18 @@ def stats(ctx, cases, rcases, trace, notes):
         "field_cases_earlier_field_by_other_entry": sum(1 for c in fields if any(f.get("api") for f in c["fields"])),
         "field_cases_bit_exact_real_valued": sum(1 for c in fields if c.get("bits")),
         "geom_classes_executed": len({json.dumps(c["labels"]["cls"]) for c in fields if c["tag"] in ("geom", "geom-pair")}),
+        # round-5 dimensions
+        "seam_cases": sum(1 for c in fields if c["tag"] == "seam"),
+        "seam_classes_executed": len({json.dumps([c["labels"][k] for k in ("lowkind", "upkind", "seamx", "uown")] +
+                                                 [c["labels"]["seam"]["pos"]]) for c in fields if c["tag"] == "seam"}),
+        "seam_axes_with_uniform_block_owning_a_crossing_cell": len({c["labels"]["axes"][0] for c in fields
+                                                                    if c["tag"] == "seam" and c["labels"]["uown"]
+                                                                    and len(c["labels"]["axes"]) == 1 and c["ncpu"] != 1}),
+        "seam_cases_edge_or_corner": sum(1 for c in fields if c["tag"] == "seam" and len(c["labels"]["axes"]) > 1),
+        "closure_cases": sum(1 for c in fields if c["tag"] == "closure"),
+        "closure_entry_points_multi_block": len({c["api"] for c in fields if c["tag"] == "closure" and nb(c) > 1}),
+        "closure_kinds_multi_block": len({c["labels"]["closure"]["ckind"] for c in fields if c["tag"] == "closure" and nb(c) > 1}),
+        "closure_race_cases": sum(1 for c in rcases if c.get("tag") == "closure"),
     })
     kinds = {}
     tri = 0
@@ -999,6 +1204,11 @@ def stats(ctx, cases, rcases, trace, notes):
             "field cases with a whole-block job over earlier samples": notes["field_cases_whole_block_over_earlier_samples"],
             "cases with several fields on one canvas": notes["field_cases_several_fields_one_canvas"],
             "bit-exact cases": notes["field_cases_bit_exact_real_valued"],
+            "seam cases in which a uniform block owns a crossing seam cell on every axis":
+                1 if notes["seam_axes_with_uniform_block_owning_a_crossing_cell"] == 3 else 0,
+            "multi-block closure fields (CombineFields and MultiSegmentLine) through both parallel entry points":
+                1 if notes["closure_entry_points_multi_block"] == 2 and notes["closure_kinds_multi_block"] == 2 else 0,
+            "multi-block closure fields under the race detector": notes["closure_race_cases"],
             "model schedules imposed exactly": exact_}
     empty = [k for k, v in need.items() if v == 0]
     if empty:
@@ -1042,7 +1252,11 @@ def run_family(ctx):
                 "affinity), AddFieldParallel and AddFieldParallel2, March vs MarchParallel; field geometry: the histories "
                 "of the ParFieldGeom model (1-2 fields on one canvas, every class of start/end residue relative to the "
                 "block size incl. ends on a block border, whole-block jobs, %s), fields covering a complete 100^3 block "
-                "before/after another field, real-valued fields compared bit by bit; a case is distinct by (entry "
+                "before/after another field, real-valued fields compared bit by bit; seam scenarios of the ParSeam model "
+                "(surface in the lower block / exactly in the seam cell layer / in the upper block x blocks uniform, all "
+                "zero, absent, crossing; per axis, edge and corner seams; always one scenario per axis in which a block "
+                "uniform in its own samples owns a crossing cell); closure fields of the ParClosure model (CombineFields of "
+                "2..4 shapes, MultiSegmentLine, spanning 1, 2, 3 blocks, both entry points, also under -race); a case is distinct by (entry "
                 "point, n, w, schedule) / (entry point, block shape, workers, order, fields); non-trivial: n>=2 and w>=2, "
                 "or more than one block" % (((6, 4) if ctx.tier == "quick" else (8, 5)) +
                                              (("a seed-rotated subset plus always one empty last job per axis and entry point",)
